@@ -277,7 +277,21 @@ def run(facts, rep, ctx):
     else:
         sr = replace_calls(sb)
         gr = replace_calls(gb)
-        if len(sr) != 1 or len(gr) != 1:
+        # transformations that cannot be the inverse of the unescape step, whatever surrounds them
+        LOSSY = ("lines", "trim", "trim_end", "trim_start", "trim_matches", "split_whitespace", "to_lowercase", "to_uppercase",
+                 "escape_default", "escape_debug", "escape_unicode", "to_ascii_lowercase", "to_ascii_uppercase", "strip_suffix", "strip_prefix", "truncate", "pop")
+        lossy_hit = False
+        for bd, who in ((gb, "get_message"), (sb, "set_message")):
+            for b2 in [bd] + facts.closures_of(bd):
+                for bb, t in b2.calls():
+                    nm = callee_names(t)[1] or callee_names(t)[0] or ""
+                    sh = nm.rsplit("::", 1)[-1]
+                    if sh in LOSSY and ("str" in nm or "String" in nm):
+                        lossy_hit = True
+                        rep.violation(R5, bd.name, "lossy:" + sh, "%s passes the message through `%s`, which loses characters (e.g. a trailing newline or carriage return): get(set(x)) != x" % (who, nm), "%s:%s" % (b2.file, t["line"]))
+        if lossy_hit:
+            pass
+        elif len(sr) != 1 or len(gr) != 1:
             rep.inconc(R5, "expected one str::replace in each of set_message (%d) and get_message (%d)" % (len(sr), len(gr)))
         else:
             (sbd, st, sargs), (gbd, gt, gargs) = sr[0], gr[0]
